@@ -94,11 +94,14 @@ def _scenarios(events):
 def corruptions(events):
     """One corrupted copy of a recorded scenario per clause: (expected clause, events)."""
     out = []
-    have = set()
+    have = {}
+    per_sc = set()
 
     def add(clause, evs):
-        if clause not in have:
-            have.add(clause)
+        # at most one case per clause and scenario, three per clause over the whole trace
+        if have.get(clause, 0) < 3 and (clause, evs[0]["sc"]) not in per_sc:
+            per_sc.add((clause, evs[0]["sc"]))
+            have[clause] = have.get(clause, 0) + 1
             out.append((clause, evs))
 
     for a, b in _scenarios(events):
@@ -109,6 +112,7 @@ def corruptions(events):
         if not recs:
             continue
         i0 = recs[0]
+        pos = {(e["rx"], tuple(e["fr"][2:8])): e["pos"] for e in sc if e["e"] == "sent"}
         c = copy.deepcopy(sc); c[i0]["frame"][5] ^= 1
         add("a_payload", c)
         c = copy.deepcopy(sc); c[i0]["m"][0]["id"][3] ^= 0x40
@@ -126,7 +130,6 @@ def corruptions(events):
             add("b_early", c)
         # a record whose absence is certain: one of its receptions is followed, on its receiver, by two
         # observed ones more than W + Skew apart (this only selects the case; the trace spec decides)
-        pos = {(e["rx"], tuple(e["fr"][2:8])): e["pos"] for e in sc if e["e"] == "sent"}
         seen_at = {}
         for i in recs:
             for mm in sc[i]["m"]:
@@ -158,11 +161,14 @@ def corruptions(events):
         add("a_serial", c)
         c = copy.deepcopy(sc); c[0]["junk"] = 1
         add("c_junk", c)
+        c = copy.deepcopy(sc); c[0]["died"] = True
+        add("x_died", c)
         skew = pipeline.SKEW_MS
         w = sc[0]["w"]
         for x in range(len(recs)):
             for y in range(x + 1, len(recs)):
-                if sc[recs[x]]["m"][0]["rx"] == sc[recs[y]]["m"][0]["rx"]:
+                mx, my = sc[recs[x]]["m"][0], sc[recs[y]]["m"][0]
+                if mx["rx"] == my["rx"] and pos.get((mx["rx"], tuple(mx["id"])), 0) < pos.get((my["rx"], tuple(my["id"])), 0):
                     c = copy.deepcopy(sc)
                     c[recs[y]]["t"] = c[recs[y]]["m"][0]["t"] = c[recs[x]]["m"][0]["t"] - 1
                     add("a_order", c)
@@ -216,15 +222,17 @@ def self_test(run, events, rejected_lines, workdir):
     got = {}
     for ln, clause in rej:
         got.setdefault(ln, set()).add(clause)
-    missed = []
+    hit, tried = {}, {}
     for ln, clause in expect.items():
         want = "c_identity" if clause == "c_identity_df" else clause
-        if want not in got.get(ln, set()):
-            missed.append((clause, sorted(got.get(ln, set()))))
+        tried.setdefault(clause, []).append(sorted(got.get(ln, set())))
+        if want in got.get(ln, set()):
+            hit[clause] = hit.get(clause, 0) + 1
+    # a clause is bound when at least one of its (up to three) corrupted recordings is rejected for it
+    missed = [(c, t) for c, t in tried.items() if c not in hit]
     if missed:
         raise core.ToolError(f"binding self-test: corrupted traces not rejected as expected: {missed}")
-    return {"cases": len(cases), "clauses_rejected": sorted(set(expect.values())),
-            "also_rejected": {expect[ln]: sorted(v) for ln, v in got.items() if ln in expect}}
+    return {"cases": len(cases), "clauses_rejected": sorted(hit), "rejected_cases_per_clause": hit}
 
 
 # ------------------------------------------------------------------ the check
@@ -241,7 +249,8 @@ def check(run):
         f_mc = ex.submit(model_check, run, thorough)
         scs, rg = pipeline.generate(n, run.seed, tier=run.tier, maxrx=4 if thorough else 3,
                                     maxsteps=12 if thorough else 8, workdir=run.work)
-        out, stats = pipeline.run_scenarios(run, scs, parallel=8 if thorough else 5)
+        stats = {}
+        out = pipeline.run_scenarios(run, scs, parallel=8 if thorough else 5, stats=stats)
         rv = stats.pop("tlc")
         mc = f_mc.result()
     if stats["selfcheck"]:
@@ -276,7 +285,7 @@ def check(run):
         "records_merging_receptions": multi,
         "strict_dedup_property_holds_on_stamp_order": f"{strict_true}/{len(stats['strict'])} accepted scenarios (information)",
         "model_checking": mc,
-        "generator": {"scenarios": len(scs), "wall_s": round(rg.wall, 1)},
+        "generator": {"scenarios": len(scs), "fixed": len(scs) - n, "random": n, "wall_s": round(rg.wall, 1)},
         "binding_self_test": st,
         "samples": [{"scenario": {k: scs[0][k] for k in ("w", "nrx", "via", "df_present", "df_list", "ac_present",
                                                           "ac_list", "chunk")},
@@ -305,8 +314,7 @@ def replay(run, path):
     scs = [c["scenario"] for c in rep.get("cases", [])]
     if not scs:
         raise core.ToolError("no scenario in replay file")
-    out, stats = pipeline.run_scenarios(run, scs, parallel=2, name="replay")
-    stats.pop("tlc")
+    out = pipeline.run_scenarios(run, scs, parallel=2, name="replay")
     for clause, r in out:
         run.report({"clause": clause}, r)
     run.cov.update({"evaluations": len(scs), "traces_validated_against_impl": len(scs), "samples": [scs[0]]})
